@@ -1,6 +1,9 @@
 package colsim
 
-import "fmt"
+import (
+	"fmt"
+	"time"
+)
 
 // concProfile steers the generator of concurrent cases.
 type concProfile struct {
@@ -272,6 +275,256 @@ func genConc(prop string, seed uint64, run int, p concProfile, av avoid) *Case {
 	}
 	if p.replicas {
 		cs.Threads = append(cs.Threads, ThreadProg{Role: "applier"})
+	}
+	return cs
+}
+
+// genTTL materialises a C17 case: stable rows, writer threads that set and extend
+// time-to-lives and update unrelated columns of the same rows, readers, and the clock
+// pseudo-thread; the collection's own vacuum goroutine joins as a simulated thread.
+func genTTL(seed uint64, run int) *Case {
+	r := NewRng(seed, uint64(run), 4)
+	g := &gen{r: r}
+	g.p = seqProfile{maxCols: 3, pMerge: 0.2}
+	cs := &Case{Prop: "C17", World: "ttl", Seed: seed, Run: run}
+	cs.Cfg.Capacity = []int{64, 1024, 20000}[r.Intn(3)]
+	cs.Cfg.Avoid = knownAvoid("C17", seed, run).list()
+	interval := []time.Duration{time.Millisecond, 10 * time.Millisecond, 100 * time.Millisecond, time.Second, 10 * time.Second}[r.Intn(5)]
+	cs.Cfg.Params = map[string]int{"vacuum_ns": int(interval)}
+	g.genSchema()
+	g.cols = g.cols[:0:0]
+	g.cols = append(g.cols, ColSpec{Name: "expire", Kind: KInt64}, ColSpec{Name: "a", Kind: KInt64}, ColSpec{Name: "s", Kind: KString})
+	cs.Schema = append([]ColSpec{}, g.cols...)
+	n := r.Range(3, 9)
+	blocks := 1
+	if r.Chance(0.3) {
+		blocks = 2
+	}
+	pf := &Prefill{Blocks: blocks}
+	var cand []uint32
+	for _, o := range strategicOffsets {
+		if int(o>>14) < blocks {
+			cand = append(cand, o)
+		}
+	}
+	for i := len(cand) - 1; i > 0; i-- {
+		j := r.Intn(i + 1)
+		cand[i], cand[j] = cand[j], cand[i]
+	}
+	if n > len(cand) {
+		n = len(cand)
+	}
+	pf.Survivors = append(pf.Survivors, cand[:n]...)
+	cs.Cfg.Prefill = pf
+	setup := &TxnProg{}
+	for i := 0; i < n; i++ {
+		setup.Ops = append(setup.Ops, Op{Kind: "at", Target: Target{Mode: "abs", K: int(pf.Survivors[i])},
+			Writes: []Write{{Col: "a", Val: Val{U: uint64(i)}}, {Col: "s", Val: strVal(fmt.Sprintf("row%d", i))}}})
+	}
+	cs.Steps = []Step{{Kind: "txn", Txn: setup}}
+	cs.Strategy = strategies[r.Intn(len(strategies))]
+	cs.SchedSeed = r.Uint64()
+	ttls := []time.Duration{interval / 2, interval, interval + interval/2, 2 * interval, 5 * interval, 100 * interval, time.Hour}
+	for ti, nw := 0, r.Range(1, 3); ti < nw; ti++ {
+		tp := ThreadProg{Role: "writer"}
+		for x, nt := 0, r.Range(1, 4); x < nt; x++ {
+			var t TxnProg
+			for o, no := 0, r.Range(1, 3); o < no; o++ {
+				k := r.Intn(64)
+				op := Op{Kind: "at", Target: Target{Mode: "stable", K: k}, Yield: r.Chance(0.3)}
+				// a third of the stable rows never get a time-to-live: they must survive every pass
+				never := k%3 == 0
+				switch pick := r.Intn(10); {
+				case pick < 4 && !never:
+					op.Writes = append(op.Writes, Write{TTL: int64(ttls[r.Intn(len(ttls))])})
+				case pick < 6 && !never:
+					op.Writes = append(op.Writes, Write{Extend: int64(ttls[r.Intn(len(ttls))])})
+				case pick < 7 && !never:
+					op = Op{Kind: "delete", Target: Target{Mode: "stable", K: k}}
+				default:
+					op.Writes = append(op.Writes, Write{Col: "a", Val: Val{U: r.Uint64()}, Merge: r.Chance(0.3)})
+					if r.Chance(0.4) {
+						op.Writes = append(op.Writes, Write{Col: "s", Val: strVal(fmt.Sprintf("v%d", r.Intn(1000)))})
+					}
+				}
+				t.Ops = append(t.Ops, op)
+			}
+			tp.Txns = append(tp.Txns, t)
+		}
+		cs.Threads = append(cs.Threads, tp)
+	}
+	if r.Chance(0.5) {
+		tp := ThreadProg{Role: "reader"}
+		for x, nt := 0, r.Range(1, 3); x < nt; x++ {
+			tp.Txns = append(tp.Txns, TxnProg{Ops: []Op{{Kind: "range", Yield: r.Chance(0.5), Limit: r.Intn(5)}, {Kind: "at", Target: Target{Mode: "stable", K: r.Intn(64)}, Yield: true}}})
+		}
+		cs.Threads = append(cs.Threads, tp)
+	}
+	cs.Threads = append(cs.Threads, ThreadProg{Role: "clock", Arg: r.Range(4, 14)})
+	return cs
+}
+
+// genRace materialises a C18 case.
+func genRace(seed uint64, run int) *Case {
+	r := NewRng(seed, uint64(run), 6)
+	g := &gen{r: r}
+	g.p = seqProfile{maxCols: 6, pMerge: 0.3, pKeyCol: 0.15}
+	cs := &Case{Prop: "C18", World: "race", Seed: seed, Run: run}
+	cs.Cfg.Capacity = []int{1, 64, 1024, 20000}[r.Intn(4)]
+	av := knownAvoid("C18", seed, run)
+	cs.Cfg.Avoid = av.list()
+	g.genSchema()
+	if av.enumBesideReaders {
+		// known finding "the enum string table is appended beside readers": only some runs have enum columns
+		kept := g.cols[:0:0]
+		for _, c := range g.cols {
+			if c.Kind != KEnum {
+				kept = append(kept, c)
+			}
+		}
+		g.cols = kept
+	}
+	cs.Schema = append([]ColSpec{}, g.cols...)
+	keyed := g.hasKey()
+	vc := g.valueCols()
+	// layout: a block that is full except for one or two holes, so that inserts grow the
+	// collection into a new block while readers and snapshots are active
+	blocks := r.Range(1, 2)
+	pf := &Prefill{Blocks: blocks}
+	nStable := r.Range(2, 6)
+	var cand []uint32
+	for _, o := range strategicOffsets {
+		if int(o>>14) < blocks {
+			cand = append(cand, o)
+		}
+	}
+	for i := len(cand) - 1; i > 0; i-- {
+		j := r.Intn(i + 1)
+		cand[i], cand[j] = cand[j], cand[i]
+	}
+	pf.Survivors = append(pf.Survivors, cand[:nStable]...)
+	grow := !keyed && r.Chance(0.6) && !av.blockGrowth
+	if av.blockGrowth {
+		// known finding "columns and bitmaps grow beside readers": unless this run explores it,
+		// everything is pre-sized and no insert opens a new block
+		cs.Cfg.Capacity = 70000
+	}
+	if grow {
+		b := blocks - 1
+		pf.KeepFull = []int{b}
+		pf.Holes = []uint32{uint32(b)<<14 + 16383}
+	}
+	if keyed {
+		pf = nil
+	}
+	cs.Cfg.Prefill = pf
+	for i, n := 0, r.Intn(3); i < n; i++ {
+		ix := g.genIndex()
+		g.indexes = append(g.indexes, *ix)
+		cs.Indexes = append(cs.Indexes, *ix)
+	}
+	setup := &TxnProg{}
+	if keyed {
+		for i := 0; i < len(g.keys); i++ {
+			op := Op{Kind: "insertkey", Key: g.keys[i]}
+			for _, c := range vc {
+				op.Writes = append(op.Writes, Write{Col: c.Name, Val: g.genVal(c)})
+			}
+			setup.Ops = append(setup.Ops, op)
+		}
+	} else {
+		for i := 0; i < nStable; i++ {
+			op := Op{Kind: "at", Target: Target{Mode: "abs", K: int(pf.Survivors[i])}}
+			for _, c := range vc {
+				op.Writes = append(op.Writes, Write{Col: c.Name, Val: g.genVal(c)})
+			}
+			setup.Ops = append(setup.Ops, op)
+		}
+	}
+	cs.Steps = []Step{{Kind: "txn", Txn: setup}}
+	cs.Strategy = []string{"uniform", "sticky", "rr"}[r.Intn(3)]
+	cs.SchedSeed = r.Uint64()
+	colName := func() string { return vc[r.Intn(len(vc))].Name }
+	anyName := func() string {
+		if len(g.indexes) > 0 && r.Chance(0.5) {
+			return g.indexes[r.Intn(len(g.indexes))].Name
+		}
+		return colName()
+	}
+	roles := []string{"writer", "writer", "reader", "reader", "snapshot", "indexer"}
+	nth := r.Range(3, 6)
+	for ti := 0; ti < nth; ti++ {
+		role := roles[r.Intn(len(roles))]
+		if role == "indexer" && av.schemaChange {
+			role = "reader" // known finding "the column registry is modified in place": only explored in some runs
+		}
+		if ti == 0 {
+			role = "writer"
+		}
+		if ti == 1 {
+			role = "reader"
+		}
+		tp := ThreadProg{Role: role}
+		for x, nt := 0, r.Range(1, 3); x < nt; x++ {
+			var t TxnProg
+			for o, no := 0, r.Range(1, 3); o < no; o++ {
+				switch role {
+				case "writer":
+					switch r.Intn(6) {
+					case 0, 1:
+						op := Op{Kind: "insert", Writes: g.genWrites(r.Range(1, 4), true)}
+						if keyed {
+							op.Key = fmt.Sprintf("t%d-%d", ti, r.Intn(3))
+						}
+						t.Ops = append(t.Ops, op)
+					case 2, 3:
+						t.Ops = append(t.Ops, Op{Kind: "at", Target: Target{Mode: "stable", K: r.Intn(64)}, Writes: g.genWrites(r.Range(1, 3), false), Yield: r.Chance(0.3)})
+					case 4:
+						if !keyed {
+							t.Ops = append(t.Ops, Op{Kind: "delete", Target: Target{Mode: "own", K: r.Intn(8)}})
+						}
+					default:
+						t.Ops = append(t.Ops, Op{Kind: "range", Limit: 3, Writes: g.genWrites(1, false)})
+					}
+				case "reader":
+					switch r.Intn(6) {
+					case 0, 1:
+						t.Ops = append(t.Ops, Op{Kind: "at", Target: Target{Mode: "stable", K: r.Intn(64)}, Yield: r.Chance(0.5)})
+					case 2:
+						var f []FStep
+						c := vc[r.Intn(len(vc))]
+						switch {
+						case c.Kind.Textual() && c.Kind != KRecord:
+							f = append(f, FStep{Kind: "withstring", Names: []string{c.Name}, Pred: &PredSpec{Fam: "spre", S: "m"}})
+						case c.Kind.Numeric():
+							f = append(f, FStep{Kind: "withfloat", Names: []string{c.Name}, Pred: &PredSpec{F: 0}})
+						default:
+							f = append(f, FStep{Kind: "withvalue", Names: []string{c.Name}, Pred: &PredSpec{Fam: "seq", S: "a"}})
+						}
+						t.Ops = append(t.Ops, Op{Kind: "range", Filter: f, Yield: r.Chance(0.5)})
+					case 3:
+						t.Ops = append(t.Ops, Op{Kind: "range", Filter: []FStep{{Kind: []string{"with", "without", "union"}[r.Intn(3)], Names: []string{anyName()}}}, Yield: r.Chance(0.5)})
+					case 4:
+						t.Ops = append(t.Ops, Op{Kind: "agg", Col: colName()})
+					default:
+						if keyed {
+							t.Ops = append(t.Ops, Op{Kind: "querykey", Key: g.keys[r.Intn(len(g.keys))]})
+						} else {
+							t.Ops = append(t.Ops, Op{Kind: "count"})
+						}
+					}
+				case "snapshot":
+					t.Ops = append(t.Ops, Op{Kind: []string{"snapshot", "snapshot", "restore"}[r.Intn(3)]})
+				case "indexer":
+					t.Ops = append(t.Ops, Op{Kind: []string{"mkindex", "mkindex", "mktrigger"}[r.Intn(3)], Col: colName()})
+				}
+			}
+			if role == "writer" && r.Chance(0.1) {
+				t.Abort = true
+			}
+			tp.Txns = append(tp.Txns, t)
+		}
+		cs.Threads = append(cs.Threads, tp)
 	}
 	return cs
 }
